@@ -147,7 +147,7 @@ def two_spellings_scenario(viol, stats):
     try:
         _os.makedirs(pr.path("real"))
         _os.symlink("real", pr.path("link"))
-        pr.write("default.data.do", 'mkdir -p "$(dirname "$1")"\necho "B $$ x $(date +%s%N)" >>"$VERIF_WORK"; sleep 0.8; echo "E $$ x $(date +%s%N)" >>"$VERIF_WORK"\necho data\n')
+        pr.write("default.data.do", 'echo "B $$ x $(date +%s%N)" >>"$VERIF_WORK"; sleep 0.8; echo "E $$ x $(date +%s%N)" >>"$VERIF_WORK"\nmkdir -p "$(dirname "$1")"\necho data\n')
         rs = sched.run_cmds(pr, [["redo", "real/out/gen/x.data"], ["redo", "link/out/gen/x.data"]], timeout=30, stagger=0.3)
         stats["runs"] += 1
         over, counts = sched.target_overlaps(sched.parse_work(pr.path(".verif-work")))
